@@ -284,6 +284,11 @@ def oracle_c05(st, info, snaps):
     scale = float(np.max(np.abs(svals), initial=0)) if np.all(np.isfinite(svals)) else None
     if scale is None:
         return
+    if svals.dtype.kind in "iu" and float(np.sum(np.abs(svals.astype(np.float64)))) >= 2.0 ** 62:
+        # an integer typed source whose sums leave the int64 range (products of repeated ** on integer arrays): integer overflow is
+        # numpy's arithmetic, not something the property defines
+        st.probe("integer_source_near_overflow_not_judged")
+        return
     kept = [i for i, s in enumerate(ki.sel) if s is None or s[0] != "item"]
     for idx in region:
         lab = []
